@@ -772,11 +772,8 @@ class Fxp():
         elif isinstance(val, Decimal):
             vdtype = float            # assuming float format
 
-            if self.n_frac is None:
-                # estimate n_frac from decimal precision
-                self.n_frac = n_frac = int(np.ceil(math.log2(10**int(getcontext().prec))))
-
-            # the exact rational value: quantized like any other value, by the configured rounding
+            # the exact rational value: quantized like any other value, by the configured rounding, and sized like any other
+            # value (the fewest fractional bits that hold it, as for a list of Decimals), not from the context's precision
             val = Fraction(val)
 
         else:
